@@ -17,6 +17,7 @@ open Emboss.Scope
 #print axioms C12_canonical_roundtrip
 #print axioms C12_abbreviation_private
 #print axioms C12_member_lookup
+#print axioms C12_member_lookup_rejects
 #print axioms C12_member_lookup_fuel
 #print axioms C12_member_lookup_errors
 #print axioms C12_member_lookup_names
